@@ -478,7 +478,7 @@ PermOf(n, k) == IF n = 3 THEN Perms3[k + 1]
                 ELSE IF n = 2 THEN (IF k % 2 = 0 THEN <<1, 2>> ELSE <<2, 1>>)
                 ELSE [i \in 1..n |-> i]
 PermuteTail(es, n, pm) ==       \* the last n equations of es in the order pm
-    LET m == Len(es) - n IN [i \in 1..Len(es) |-> IF i <= m THEN es[i] ELSE es[m + pm[i - m]]]
+    LET m == Len(es) - n IN TLCEval([i \in 1..Len(es) |-> IF i <= m THEN es[i] ELSE es[m + pm[i - m]]])
 
 (* step 4: constant assignments *)
 CstEq(w, f, c) ==
@@ -631,9 +631,9 @@ BuildMeta(e) ==
         a4 == AddEq(Given(a3, "z", "A", 2 * a3.sol[lastv] + 1), Sym("z"), MkAdd(MkMul(Lit(2), Sym(lastv)), Lit(1)))
         named == IF e.tgt = "D" THEN [i \in 1..Len(e.links) |-> AliasName[i]]
                  ELSE <<tname>> \o [i \in 1..Len(e.links) |-> AliasName[i]]
-    IN  [a4 EXCEPT !.attr = [x \in DOMAIN @ |->
+    IN  [a4 EXCEPT !.attr = TLCEval([x \in DOMAIN @ |->
                                IF \E i \in DOMAIN named : named[i] = x
-                               THEN AttrOf(e.attrs[CHOOSE i \in DOMAIN named : named[i] = x]) ELSE @[x]]]
+                               THEN AttrOf(e.attrs[CHOOSE i \in DOMAIN named : named[i] = x]) ELSE @[x]])]
 
 Build(b) ==
     IF b.meta # 0 THEN BuildMeta(MetaFile[b.meta]) ELSE
@@ -645,7 +645,7 @@ Build(b) ==
         a4 == AddCst(a3, b, CstTab[b.cst], 1)
         a5 == AddElim(a4, b, ElimTab[b.elim], 1, "")
         a6 == AddDne(AddEsRow(AddRows(a5, b, 1), b), b)
-        a7 == IF b.rev = 1 THEN [a6 EXCEPT !.eqs = Reverse(@)] ELSE a6
+        a7 == IF b.rev = 1 THEN [a6 EXCEPT !.eqs = TLCEval(Reverse(@))] ELSE a6
     IN  AddIni(a7, b)
 
 Resid(es) == TLCEval([i \in DOMAIN es |-> MkSub(es[i].l, es[i].r)])     \* generator.exitEquation: lhs - rhs
@@ -723,13 +723,14 @@ Init ==
          /\ opts \in OptsOf(g)
          /\ opts \subseteq AllOptions
          /\ sol = ExtSol(bp, m)
-         /\ cat = m.cat
-         /\ val = m.val
-         /\ attr = m.attr
+         /\ cat = TLCEval(m.cat)
+         /\ val = TLCEval(m.val)
+         /\ attr = TLCEval(m.attr)
          /\ eqs = Resid(m.eqs)
          /\ ieqs = Resid(m.ieqs)
-         /\ orig = [cat |-> m.cat, order |-> m.order, val |-> m.val, eqs |-> m.eqs, ieqs |-> m.ieqs,
-                    attr |-> m.attr]
+         \* (state variables always get fully evaluated values: TLC cannot write lazily defined functions to its disk queue)
+         /\ orig = [cat |-> TLCEval(m.cat), order |-> TLCEval(m.order), val |-> TLCEval(m.val), eqs |-> TLCEval(m.eqs),
+                    ieqs |-> TLCEval(m.ieqs), attr |-> TLCEval(m.attr)]
     /\ rel = {}
     /\ newc = [x \in {} |-> 0]
     /\ pc = 1 /\ iter = 1 /\ algLeft = 0 /\ status = "run" /\ nonaffine = FALSE /\ hazard = {}
@@ -778,9 +779,9 @@ ResolveParameterValues ==
 ReplaceExpressions(c) ==
     \E names \in {{x \in NamesOf(cat, {c}) : ~IsConstTree(val[x])}} :
     \E m \in {Resolve(TLCEval([x \in names |-> val[x]]), 10)} :
-        /\ cat' = Restrict(cat, Live \ names)
+        /\ cat' = TLCEval(Restrict(cat, Live \ names))
         /\ val' = SubstVals(Restrict(val, DOMAIN val \ names), m)
-        /\ attr' = Restrict(attr, Live \ names)
+        /\ attr' = TLCEval(Restrict(attr, Live \ names))
         /\ eqs' = SubstSeq(eqs, m)
         /\ ieqs' = SubstSeq(ieqs, m)
         /\ UNCHANGED <<rel, newc, status, nonaffine>>
@@ -811,11 +812,11 @@ EliminateConstantAssignments ==
     /\ IF Has("eliminate_constant_assignments")
        THEN \E r \in {ECAFold(eqs, 1, A, <<>>, [x \in {} |-> 0])} :
             /\ eqs' = r.kept
-            /\ cat' = [x \in Live |-> IF x \in DOMAIN r.found THEN "K" ELSE cat[x]]
-            /\ val' = [x \in DOMAIN val \cup DOMAIN r.found |->
-                          IF x \in DOMAIN r.found THEN Lit(r.found[x]) ELSE val[x]]
-            /\ newc' = [x \in DOMAIN newc \cup DOMAIN r.found |->
-                          IF x \in DOMAIN r.found THEN r.found[x] ELSE newc[x]]
+            /\ cat' = TLCEval([x \in Live |-> IF x \in DOMAIN r.found THEN "K" ELSE cat[x]])
+            /\ val' = TLCEval([x \in DOMAIN val \cup DOMAIN r.found |->
+                          IF x \in DOMAIN r.found THEN Lit(r.found[x]) ELSE val[x]])
+            /\ newc' = TLCEval([x \in DOMAIN newc \cup DOMAIN r.found |->
+                          IF x \in DOMAIN r.found THEN r.found[x] ELSE newc[x]])
             /\ UNCHANGED <<attr, ieqs, rel, status, nonaffine>>
        ELSE Skip
 
@@ -825,9 +826,9 @@ ReplaceParameterValues ==
     /\ IF Has("replace_parameter_values")
        THEN \E names \in {{x \in NamesOf(cat, {"P"}) : IsRegular(val[x])}} :
             \E m \in {TLCEval([x \in names |-> val[x]])} :
-                /\ cat' = Restrict(cat, Live \ names)
+                /\ cat' = TLCEval(Restrict(cat, Live \ names))
                 /\ val' = SubstVals(Restrict(val, DOMAIN val \ names), m)
-                /\ attr' = Restrict(attr, Live \ names)
+                /\ attr' = TLCEval(Restrict(attr, Live \ names))
                 /\ eqs' = SubstSeq(eqs, m)
                 /\ ieqs' = SubstSeq(ieqs, m)
                 /\ UNCHANGED <<rel, newc, status, nonaffine>>
@@ -842,9 +843,9 @@ ReplaceConstantValues ==
             \E m \in {IF ConstValuesResolved THEN Resolve(m0, 10) ELSE m0} :
             \E gone \in {UNION {BlockOf(rel, <<x, 1>>) \cup BlockOf(rel, <<x, -1>>) :
                                  x \in {z \in names : \E b \in rel : <<z, 1>> \in b}}} :
-                /\ cat' = Restrict(cat, Live \ names)
+                /\ cat' = TLCEval(Restrict(cat, Live \ names))
                 /\ val' = SubstVals(Restrict(val, DOMAIN val \ names), m)
-                /\ attr' = Restrict(attr, Live \ names)
+                /\ attr' = TLCEval(Restrict(attr, Live \ names))
                 /\ eqs' = SubstSeq(eqs, m)
                 /\ ieqs' = SubstSeq(ieqs, m)
                 /\ rel' = {b \in rel : b \cap gone = {}}
@@ -897,8 +898,8 @@ EliminableVariables ==
                  /\ UNCHANGED <<cat, val, attr, eqs, ieqs, rel, newc, nonaffine>>
             ELSE \E r \in {EVFold(eqs, 1, cat, <<>>, [x \in {} |-> Lit(0)])} :
                  \E m \in {Resolve(r.m, 10)} :
-                     /\ cat' = r.cat
-                     /\ attr' = [x \in DOMAIN r.cat |-> IF x \in DOMAIN attr THEN attr[x] ELSE DefaultAttr]
+                     /\ cat' = TLCEval(r.cat)
+                     /\ attr' = TLCEval([x \in DOMAIN r.cat |-> IF x \in DOMAIN attr THEN attr[x] ELSE DefaultAttr])
                      /\ eqs' = SubstSeq(r.kept, m)
                      /\ ieqs' = SubstSeq(ieqs, m)
                      /\ UNCHANGED <<val, rel, newc, status, nonaffine>>
@@ -915,7 +916,7 @@ Factor(e) ==
 FactorAndSimplify ==
     /\ Step("factor_and_simplify_equations")
     /\ IF Has("factor_and_simplify_equations")
-       THEN /\ eqs' = [i \in DOMAIN eqs |-> Factor(eqs[i])]
+       THEN /\ eqs' = TLCEval([i \in DOMAIN eqs |-> Factor(eqs[i])])
             /\ UNCHANGED <<cat, val, attr, ieqs, rel, newc, status, nonaffine>>
        ELSE Skip
 
@@ -1037,7 +1038,7 @@ DetectAliases ==
                                                  sg == (CHOOSE z \in ClassOf(r.rel, c) : z[1] = x)[2]
                                              IN IF sg = 1 THEN Sym(c) ELSE MkNeg(Sym(c))])
             IN  /\ rel' = r.rel
-                /\ cat' = Restrict(cat, Live \ gone)
+                /\ cat' = TLCEval(Restrict(cat, Live \ gone))
                 /\ LET startChoices(c) ==        \* the aliases are iterated as a Python set: any explicit one may come first
                            IF attr[c].sset THEN {[sset |-> TRUE, start |-> attr[c].start]}
                            ELSE LET ex == {z \in newOf(c) : attr[z[1]].sset} IN
@@ -1045,11 +1046,11 @@ DetectAliases ==
                                 ELSE {[sset |-> TRUE, start |-> z[2] * attr[z[1]].start] : z \in ex}
                    IN  \E st \in [canons -> UNION {startChoices(c) : c \in canons}] :
                          /\ \A c \in canons : st[c] \in startChoices(c)
-                         /\ attr' = [x \in Live \ gone |->
+                         /\ attr' = TLCEval([x \in Live \ gone |->
                                        IF x \in canons
                                        THEN [MergeSeq(attr[x], attr, SetToSeq(newOf(x)))
                                                EXCEPT !.sset = st[x].sset, !.start = st[x].start]
-                                       ELSE attr[x]]
+                                       ELSE attr[x]])
                 /\ val' = val
                 /\ \E mm \in {m} : eqs' = SubstSeq(r.kept, mm) /\ ieqs' = SubstSeq(ieqs, mm)
                 /\ UNCHANGED <<newc, status, nonaffine>>
@@ -1062,7 +1063,7 @@ AffineForm(es, c) ==
         zero == [x \in V |-> Lit(0)]
         row(e) == LET terms == [j \in 1..Len(vs) |-> MkMul(Subst(DTree(e, vs[j]), zero), Sym(vs[j]))]
                   IN MkAdd(SumSeq(terms, 1), Subst(e, zero))
-    IN  [i \in DOMAIN es |-> row(es[i])]
+    IN  TLCEval([i \in DOMAIN es |-> row(es[i])])
 IsAffine(es, c) == \A i \in DOMAIN es : Deg(es[i], NamesOf(c, {"S", "D", "A", "I"})) <= 1
 ReduceAffine ==
     /\ Step("reduce_affine_expression")
